@@ -125,8 +125,8 @@ PROPS["C20"] = {
     "claim": "complete enumeration of the (T,B) square and the (L,E,B) cube up to the tier's bound plus a boundary cross product up to 2^32-1, every result compared with integer-only RFC 5052 arithmetic (N, A_small, A_large<=B, I, I*A_large+(N-I)*A_small=T)",
     "technique": "exhaustive enumeration of a bounded input space against a reference model",
     "rule": "every (L,E,B) triple is one case; states = transitions = triples evaluated on the real function",
-    "bounds": {"quick": "T,B in 1..1500 (E=1); L in 1..256 x E in 1..32 x B in 1..32; boundary grid L in {2^k-1,2^k,2^k+1} x E in {1,2,3,1024,2^31,2^32-1} x B in {1,2,3,255,50000,2^31-1,2^31,2^32-1}",
-               "thorough": "T,B in 1..4096; L in 1..512 x E,B in 1..64; same boundary grid"},
+    "bounds": {"quick": "T,B in 1..1500 (E=1); L in 1..256 x E in 1..32 x B in 1..32; boundary grid L in {2^k-1,2^k,2^k+1} x E in {1,2,3,1024,2^31,2^32-1} x B in {1,2,3,255,50000,2^31-1,2^31,2^32-1}; every T in 1..2^19 x 40 values of B (1..2^24+1) with E=1 and, for a third of them, E in {2,1024,1500} at the three lengths around T*E",
+               "thorough": "T,B in 1..4096; L in 1..512 x E,B in 1..64; same boundary grid; every T in 1..2^22 x the 40 values of B"},
     "assumptions": ["beyond the enumerated squares/cubes only the boundary grid is visited"],
     "runs": [{"name": "block", "src": "h_block.c", "variant": "plain", "no_lib": True}],
 }
